@@ -38,8 +38,14 @@ class C08(Prop):
         for c in out:
             if rng.random() < 0.33:
                 cfg = c['cfg']
-                c['market'] = csv_market(rng, c['assets'], cfg['start'] // DAY, cfg['end'] // DAY, c['exact'])
-                c['stream'] += ':csv' + (':adjusted' if c['market']['adjust'] else '')
+                holes = None
+                inner = sl.bdays_between(cfg['start'] // DAY + 1, cfg['end'] // DAY - 1)
+                if len(inner) > 12 and rng.random() < 0.35:
+                    # one asset is suspended for more than a week (its last close stays its price)
+                    k0 = rng.randint(0, len(inner) - 9)
+                    holes = {rng.choice(c['assets']): set(inner[k0:k0 + rng.randint(7, 9)])}
+                c['market'] = csv_market(rng, c['assets'], cfg['start'] // DAY, cfg['end'] // DAY, c['exact'], None, holes)
+                c['stream'] += ':csv' + (':adjusted' if c['market']['adjust'] else '') + (':suspension' if holes else '')
                 if c['market']['adjust'] and c['cfg'].get('lookbacks') is None and rng.random() < 0.6:
                     c['default_handler'] = True         # data_handler=None: built by the session from QSTRADER_CSV_DATA_DIR
                     c['stream'] += ':default-handler'
